@@ -14,11 +14,11 @@ type Op uint8
 const (
 	OpConst Op = iota
 	OpVar
-	OpNot  // bool
-	OpAnd  // bool
-	OpOr   // bool
-	OpEq   // any -> bool
-	OpIte  // cond, a, b
+	OpNot // bool
+	OpAnd // bool
+	OpOr  // bool
+	OpEq  // any -> bool
+	OpIte // cond, a, b
 	OpAdd
 	OpSub
 	OpMul
